@@ -1,10 +1,11 @@
 """C18 - SLURM boundary: faithful scripts, conservative status, bounded retries."""
 
 import ast
+import re
 
 from .. import AnalysisError
 from ..cfg import ALL_KINDS, NORMAL_KINDS, iter_own
-from ..lib import _single_return, both_orders, iteration_paths, dominated_by, guard_forms, key_of, norm, render, return_conditions
+from ..lib import _single_return, both_orders, edge_cond_inlined, inlined, iteration_paths, dominated_by, guard_forms, key_of, norm, render, return_conditions
 from ..report import describe, rule
 
 P = "C18"
@@ -61,13 +62,18 @@ def c18_1(ctx, r):
     n, c = apps[0]
     forms = guard_forms(ctx, fn, n, ALL_KINDS, kill=False)
     pv = lp.target.id
-    okg = any((not p) and f.replace(" ", "") in (f"getattr(<HpcConfig.hpc>,{pv},None)isNone", f"getattr(self._config.hpc,{pv},None)isNone", f"getattr(hpc,{pv},None)isNone", "valueisNone") for f, p in forms)
+    okg = any((not p) and re.fullmatch(rf"getattr\((<HpcConfig\.hpc>|self\._config\.hpc|\w+),{pv},None\)isNone", f.replace(" ", "")) for f, p in forms)
     r.check(okg, "an optional parameter is emitted iff its value is not None", key_of(fn, "optional guard"), fn.loc(c), f"the optional line is emitted under {sorted(('' if p else 'not ') + f for f, p in forms)}", "every optional parameter that is set")
+    # the value emitted: the single formatted value of the line besides the parameter name
+    fv = [v.value for v in c.args[0].values if isinstance(v, ast.FormattedValue)] if isinstance(c.args[0], ast.JoinedStr) else []
+    vnames = [v.id for v in fv if isinstance(v, ast.Name) and v.id != pv]
+    vname = vnames[0] if len(vnames) == 1 else None
     txt = render(ctx, fn, c.args[0])
-    r.check(txt.replace(" ", "") == "f'#SBATCH--{" + pv + "}={value}'", "line = #SBATCH --<param>=<value>", key_of(fn, "optional line text"), fn.loc(c), f"the optional line is {txt}")
+    r.check(vname is not None and txt.replace(" ", "") == "f'#SBATCH--{" + pv + "}={" + vname + "}'", "line = #SBATCH --<param>=<value>", key_of(fn, "optional line text"), fn.loc(c), f"the optional line is {txt}")
     ud = None
-    for d in ctx.rd(fn).reaching(n, "value"):
-        ud = ctx.rd(fn).defs_at[d].get("value")
+    if vname:
+        for d in ctx.rd(fn).reaching(n, vname):
+            ud = ctx.rd(fn).defs_at[d].get(vname)
     okv = isinstance(ud, ast.Call) and ctx.src(ud.func) == "getattr" and len(ud.args) == 3 and render(ctx, fn, ctx.guards(fn).expand(ud.args[0], n)) == "<HpcConfig.hpc>" and ctx.src(ud.args[1]) == pv and ctx.src(ud.args[2]) == "None"
     r.check(okv, "value = getattr(<the hpc config>, param, None)", key_of(fn, "value source"), fn.loc(lp), f"value is {ctx.src(ud) if isinstance(ud, ast.AST) else None}")
 
@@ -76,8 +82,10 @@ def c18_1(ctx, r):
 def c18_2(ctx, r):
     fn = ctx.fn(f"{SM}._create_submission_script_text", "C18.2")
     lines = None
+    rets0 = [n for n in iter_own(fn.node) if isinstance(n, ast.Return)]
+    lname = rets0[0].value.id if len(rets0) == 1 and isinstance(rets0[0].value, ast.Name) else None
     for n in iter_own(fn.node):
-        if isinstance(n, ast.Assign) and isinstance(n.value, ast.List) and ctx.src(n.targets[0]) == "lines":
+        if isinstance(n, ast.Assign) and isinstance(n.value, ast.List) and lname and ctx.src(n.targets[0]) == lname:
             lines = [render(ctx, fn, e) for e in n.value.elts]
     if lines is None:
         raise AnalysisError("C18.2", "header list `lines = [...]` not found")
@@ -94,10 +102,10 @@ def c18_2(ctx, r):
         r.check(w in norm_lines, f"header carries the configured {what}", key_of(fn, f"header {what}"), fn.loc(), f"no header line {w} (lines: {norm_lines})",
                 "contains exactly the configured account, walltime, job name, output paths")
     r.check(len(lines) == 6, "no other fixed header line", key_of(fn, "header size"), fn.loc(), f"{len(lines)} fixed lines")
-    apps = [ctx.src(n.args[0]) for n in iter_own(fn.node) if isinstance(n, ast.Call) and isinstance(n.func, ast.Attribute) and n.func.attr == "append" and ctx.src(n.func.value) == "lines" and not ctx.enclosing(fn, n, (ast.For,))]
+    apps = [ctx.src(n.args[0]) for n in iter_own(fn.node) if isinstance(n, ast.Call) and isinstance(n.func, ast.Attribute) and n.func.attr == "append" and ctx.src(n.func.value) == lname and not ctx.enclosing(fn, n, (ast.For,))]
     r.check(any(a.replace('"', "'") == "f'srun {script}'" for a in apps), "the script body is `srun <script>`", key_of(fn, "srun line"), fn.loc(), f"appended lines: {apps}", "runs the batch's run script")
     rets = [n for n in iter_own(fn.node) if isinstance(n, ast.Return)]
-    r.check(len(rets) == 1 and ctx.src(rets[0].value) == "lines", "all lines are returned", key_of(fn, "return"), fn.loc(), "the text returned is not `lines`")
+    r.check(len(rets) == 1 and lname is not None and ctx.src(rets[0].value) == lname, "all lines are returned", key_of(fn, "return"), fn.loc(), "the text returned is not `lines`")
     cs = ctx.fn(f"{SM}.create_submission_script", "C18.2")
     s = ctx.one_site(cs, "C18.2", short=f"{SM}._create_submission_script_text")
     r.check([ctx.src(a) for a in s.node.args] == ["name", "script", "path"], "create_submission_script forwards (name, script, path)", key_of(cs, "forward"), s.loc, f"forwards {[ctx.src(a) for a in s.node.args]}")
@@ -107,15 +115,25 @@ def c18_2(ctx, r):
     hm = ctx.fn("HpcManager.submit", "C18.2")
     cc = [s2 for s2 in ctx.cg.sites_in(hm) if isinstance(s2.node.func, ast.Attribute) and s2.node.func.attr == "create_submission_script"]
     sub = [s2 for s2 in ctx.cg.sites_in(hm) if "HANDOFF" in ctx.site_effects(s2)]
-    ok = len(cc) == 1 and len(sub) == 1 and [ctx.src(a) for a in cc[0].node.args] == ["name", "script", "filename", "self._output"] and ctx.src(sub[0].node.args[0]) == "filename" and ctx.src(cc[0].node.func.value) == ctx.src(sub[0].node.func.value)
+    ok = len(cc) == 1 and len(sub) == 1 and len(cc[0].node.args) == 4 and sub[0].node.args
+    if ok:
+        ca, sa = cc[0].node.args, sub[0].node.args[0]
+        same_file = isinstance(ca[2], ast.Name) and isinstance(sa, ast.Name) and ca[2].id == sa.id
+        fdef = None
+        for n in ctx.nodes_of(hm, cc[0].node):
+            fdef = inlined(ctx, hm, ca[2], n)
+        ok = (same_file and [ctx.src(a) for a in ca[:2]] + [ctx.src(ca[3])] == ["name", "script", "self._output"] and fdef == "os.path.join(directory,name+'.sh')"
+              and ctx.src(cc[0].node.func.value) == ctx.src(sub[0].node.func.value))
     r.check(ok, "HpcManager.submit writes <directory>/<name>.sh and submits that file through the same interface", key_of(hm, "write/submit agreement"), hm.loc(),
             "the script that is written and the script that is submitted (or the interfaces used) differ")
     ah = ctx.fn("AsyncHpcSubmitter.run", "C18.2")
     s2 = ctx.one_site(ah, "C18.2", short="HpcManager.submit")
     args = [ctx.src(a) for a in s2.node.args]
-    r.check(args == ["self._output", "self._name", "str(script)", "self._submission_group.name"], "the batch passes (output, name, run script, group name)", key_of(ah, "submit args"), s2.loc, f"HpcManager.submit receives {args}")
+    a2 = s2.node.args[2] if len(s2.node.args) > 2 else None
+    svar = a2.args[0].id if isinstance(a2, ast.Call) and ctx.src(a2.func) == "str" and a2.args and isinstance(a2.args[0], ast.Name) else None
+    r.check(svar is not None and args[:2] + args[3:] == ["self._output", "self._name", "self._submission_group.name"], "the batch passes (output, name, run script, group name)", key_of(ah, "submit args"), s2.loc, f"HpcManager.submit receives {args}")
     for n in ctx.nodes_of(ah, s2.node):
-        defs = {ctx.src(ctx.rd(ah).defs_at[d].get("script")) for d in ctx.rd(ah).reaching(n, "script") if isinstance(ctx.rd(ah).defs_at[d].get("script"), ast.AST)}
+        defs = {ctx.src(ctx.rd(ah).defs_at[d].get(svar)) for d in ctx.rd(ah).reaching(n, svar) if isinstance(ctx.rd(ah).defs_at[d].get(svar), ast.AST)} if svar else set()
         r.check(defs == {"self._run_script", "self._make_singularity_command()"}, "script = the batch's run script (or its singularity wrapper)", key_of(ah, "script source"), s2.loc, f"script is one of {sorted(defs)}")
 
 
@@ -149,7 +167,9 @@ def c18_3(ctx, r):
     # parse: the state is the second field of each line, the id the first
     gs = ctx.fn(f"{SM}._get_statuses_from_output", "C18.3")
     cfg_gs = ctx.cfg(gs)
-    st_nodes = [n for n in cfg_gs.nodes if n.kind == "stmt" and isinstance(n.ast, ast.Assign) and isinstance(n.ast.targets[0], ast.Subscript) and ctx.src(n.ast.targets[0].value) == "statuses"]
+    rr = sorted([n for n in iter_own(gs.node) if isinstance(n, ast.Return) and isinstance(n.value, ast.Name)], key=lambda x: x.lineno)
+    sname = rr[-1].value.id if rr else None
+    st_nodes = [n for n in cfg_gs.nodes if n.kind == "stmt" and isinstance(n.ast, ast.Assign) and isinstance(n.ast.targets[0], ast.Subscript) and sname and ctx.src(n.ast.targets[0].value) == sname]
     okf = bool(st_nodes)
     got = []
     for n in st_nodes:
@@ -173,10 +193,10 @@ def c18_3(ctx, r):
     # every non-blank line of the answer yields an entry: a line skipped (or a parse loop left early) makes the
     # ids behind it look absent, and absent = finished
     cfgs = ctx.cfg(gs)
-    stores = [n for n in cfgs.nodes if n.kind == "stmt" and isinstance(n.ast, ast.Assign) and isinstance(n.ast.targets[0], ast.Subscript) and ctx.src(n.ast.targets[0].value) == "statuses"]
+    stores = [n for n in cfgs.nodes if n.kind == "stmt" and isinstance(n.ast, ast.Assign) and isinstance(n.ast.targets[0], ast.Subscript) and sname and ctx.src(n.ast.targets[0].value) == sname]
     loops = [n for n in iter_own(gs.node) if isinstance(n, ast.For)]
     if len(loops) != 1 or not stores:
-        raise AnalysisError("C18.3", f"expected one parse loop with a store into `statuses` in {gs.short}")
+        raise AnalysisError("C18.3", f"expected one parse loop with a store into the returned dict in {gs.short}")
     lv = ctx.src(loops[0].target)
     blank = {(f"{lv} == ''", True), (lv, False), (f"{lv}.strip()", False), (f"{lv}.strip() == ''", True)}
     # `text.split("\n")` yields "" for an empty answer and after a trailing newline: such a line must be skipped, not parsed
@@ -198,17 +218,48 @@ def c18_3(ctx, r):
                 "A batch that the scheduler reports in any state other than finished or absent is never treated as finished")
     cs = ctx.fn(f"{SM}.check_statuses", "C18.3")
     r.check('("jobid","state")' in ctx.src(cs.node).replace(" ", "").replace("'", '"'), "squeue is asked for (jobid, state)", key_of(cs, "format"), cs.loc(), "squeue --Format columns changed")
+    # one poll answers for every group's batches: the listing is selected by the submitting user only (HpcManager polls through
+    # the first group's interface; an account / partition / name filter hides the batches of groups that differ in it)
+    def _lit(x):
+        return "".join(v.value for v in x.values if isinstance(v, ast.Constant)) if isinstance(x, ast.JoinedStr) else (x.value if isinstance(x.value, str) else "")
+
+    cmds = [x for x in iter_own(cs.node) if isinstance(x, (ast.JoinedStr, ast.Constant)) and (_lit(x).startswith("squeue -") or _lit(x).startswith("squeue --")) and not isinstance(ctx.parents(cs).get(id(x)), (ast.JoinedStr, ast.FormattedValue))]
+    if not cmds:
+        raise AnalysisError("C18.3", "squeue command text not found in check_statuses")
+    for x in cmds:
+        lit = "".join(v.value for v in x.values if isinstance(v, ast.Constant)) if isinstance(x, ast.JoinedStr) else x.value
+        toks = lit.split()
+        filt = sorted(t for t in toks if t in ("-A", "--account", "-p", "--partition", "-n", "--name", "-q", "--qos", "-w", "--nodelist", "-R", "--reservation", "-j", "--jobs", "-t", "--states") or t.startswith(("--account=", "--partition=", "--name=", "--qos=", "--states=")))
+        r.check(("-u" in toks or "--user" in toks or "--me" in toks) and not filt, "squeue lists all batches of the submitting user", key_of(cs, f"squeue filtered by {filt or 'something other than the user'}"), cs.loc(x),
+                f"the status poll is `{lit.strip()[:70]}`: " + (f"the filter {filt} hides" if filt else "without -u it does not select") + " this submission's batches of other groups (another account / partition): they are absent from the answer, "
+                "absent counts as finished, and completion is forced while they run", "A batch that the scheduler reports in any state other than finished or absent is never treated as finished")
     ic = ctx.fn("AsyncHpcSubmitter.is_complete", "C18.3")
     st = [x for x in iter_own(ic.node) if isinstance(x, ast.Assign) and ctx.src(x.targets[0]) == "self._is_complete" and isinstance(x.value, ast.Compare)]
-    ok = len(st) == 1 and isinstance(st[0].value.ops[0], ast.In) and {ctx.src(e) for e in st[0].value.comparators[0].elts} == {"HpcJobStatus.COMPLETE", "HpcJobStatus.NONE"} and ctx.src(st[0].value.left) == "status"
+    ok = len(st) == 1 and isinstance(st[0].value.ops[0], ast.In) and {ctx.src(e) for e in st[0].value.comparators[0].elts} == {"HpcJobStatus.COMPLETE", "HpcJobStatus.NONE"}
+    src_ok = False
+    if ok:
+        for n in ctx.nodes_of(ic, st[0]):
+            lv = st[0].value.left
+            lv = ctx.guards(ic).expand(lv, n) if isinstance(lv, ast.Name) else lv
+            src_ok = ctx.src(lv) == "self._status_collector.check_status(self._job_id)"
     r.check(ok, "a batch is finished iff its status is COMPLETE or NONE", key_of(ic, "finished set"), ic.loc(), f"is_complete decides by `{ctx.src(st[0].value) if st else None}`",
             "any state other than finished or absent is never treated as finished")
-    stn = [x for x in iter_own(ic.node) if isinstance(x, ast.Assign) and ctx.src(x.targets[0]) == "status"]
-    r.check(len(stn) == 1 and ctx.src(stn[0].value) == "self._status_collector.check_status(self._job_id)", "status = collector.check_status(own id)", key_of(ic, "status source"), ic.loc(), "status is not queried for the batch's own id")
+    r.check(src_ok, "status = collector.check_status(own id)", key_of(ic, "status source"), ic.loc(), "status is not queried for the batch's own id")
     ck = ctx.fn("HpcStatusCollector.check_status", "C18.3")
     rets = [x for x in iter_own(ck.node) if isinstance(x, ast.Return)]
     ok = len(rets) == 1 and ctx.src(rets[0].value) == "self._statuses.get(job_id, HpcJobStatus.NONE)"
     r.check(ok, "an id absent from the squeue answer is NONE", key_of(ck, "absent id"), ck.loc(), f"check_status returns `{ctx.src(rets[0].value) if rets else None}`")
+    # the poll time is recorded only after the poll succeeded: if check_statuses() raises, the next call (within the poll
+    # interval) must poll again instead of answering NONE (= finished) from the empty cache
+    cfgk = ctx.cfg(ck)
+    polls = [n for s2 in ctx.cg.sites_in(ck) if "SQUEUE" in ctx.site_may(s2) or s2.calls_short(ctx.ix, "HpcManager.check_statuses") for n in ctx.nodes_of(ck, s2.node)]
+    stamps = [n for n in cfgk.nodes if n.kind == "stmt" and isinstance(n.ast, ast.Assign) and ctx.src(n.ast.targets[0]) == "self._last_poll_time" and not (isinstance(n.ast.value, ast.Constant) and n.ast.value.value is None)]
+    if not polls or not stamps:
+        raise AnalysisError("C18.3", f"HpcStatusCollector.check_status: polls={len(polls)} timestamp stores={len(stamps)}")
+    for n in stamps:
+        r.check(dominated_by(ctx, ck, n, polls, NORMAL_KINDS), "the poll timestamp is stored after the scheduler query returned", key_of(ck, "poll time stored before the query"), ck.loc(n.ast),
+                "self._last_poll_time is updated before check_statuses() ran: when that query fails (after its retries) the collector believes it has just polled, and the next check_status() within the poll interval "
+                "answers HpcJobStatus.NONE from the empty cache - a queued / running batch is taken for finished", "After a transient failure of the scheduler's status query the next round proceeds normally / never treated as finished")
     # a failed squeue raises (never an empty answer that would make every batch NONE)
     for ret, conds, path in return_conditions(ctx, cs):
         okc = any(p and f.replace(" ", "") in ("ret==0",) or ((not p) and False) for f, p in conds) or any(p and "== 0" in f for f, p in conds)
@@ -233,14 +284,14 @@ def submit_returns(ctx, r, rid):
         res = jid = None
         for n, k, c in path:
             if k in ("T", "F") and c is not None:
-                conds |= both_orders([norm(ctx, fn, c, None, pol=(k == "T"))])
+                conds.add(edge_cond_inlined(ctx, fn, n, k, c))
             if n.kind == "stmt" and isinstance(n.ast, ast.Assign) and isinstance(n.ast.targets[0], ast.Name):
                 if n.ast.targets[0].id == rv.id:
                     res = ctx.src(n.ast.value)
                 if n.ast.targets[0].id == jv.id:
                     jid = ctx.src(n.ast.value)
-        ret0 = ("ret == 0", True) in conds
-        matched = ("match", True) in conds or any(p and "search(" in f for f, p in conds)
+        ret0 = any(p and re.fullmatch(r"(0==)?run_command\(.*sbatch.*\)(==0)?", f) and ("==0" in f or f.startswith("0==")) for f, p in conds)
+        matched = any(p and "_REGEX_SBATCH_OUTPUT." in f for f, p in conds)
         if res == "Status.GOOD":
             goods += 1
             r.check(ret0 and matched, "GOOD only if sbatch returned 0 and its output matched the job-id pattern", key_of(fn, f"GOOD under {sorted(f for f, p in conds if p)}"), fn.loc(rets[0].ast),
@@ -292,6 +343,12 @@ def c18_5(ctx, r):
         e = ctx.guards(fn).expand(it.args[0], nodes[0]) if nodes else it.args[0]
         bound = ctx.src(e).replace(" ", "")
     r.check(bound == "num_retries+1", "loop bound = num_retries + 1", key_of(fn, f"retry bound {bound}"), fn.loc(lp), f"the retry loop runs range({bound}) times", "retried at most the configured number of times")
+    # roles: RET = the local bound to the execution's result, IV = the loop variable, MT = the name used as range bound
+    RET = ex.stmt.targets[0].id if isinstance(ex.stmt, ast.Assign) and isinstance(ex.stmt.targets[0], ast.Name) else None
+    IV = ctx.src(lp.target)
+    MT = it.args[0].id if isinstance(it, ast.Call) and it.args and isinstance(it.args[0], ast.Name) else None
+    if RET is None or MT is None:
+        raise AnalysisError("C18.5", "retry loop: result local / bound local not recognised")
     # exits: the break is taken when ret == 0 or i == max_tries - 1, before the sleep
     brks = [n for n in cfg.nodes if n.kind == "stmt" and isinstance(n.ast, ast.Break)]
     sleeps = [n for n in cfg.nodes for c in cfg.calls_at(n) if ctx.src(c.func) == "time.sleep"]
@@ -303,7 +360,7 @@ def c18_5(ctx, r):
     ok_succ = None
     for n in cfg.nodes:
         for d, k, c in n.succ:
-            if k in ("T", "F") and c is not None and ("ret == 0", True) in both_orders([norm(ctx, fn, c, None, pol=(k == "T"))]) and any(l is lp for l in ctx.enclosing(fn, c, (ast.For,))) and n.kind == "test" and _is_exit_test(ctx, fn, n):
+            if k in ("T", "F") and c is not None and (f"{RET} == 0", True) in both_orders([norm(ctx, fn, c, None, pol=(k == "T"))]) and any(l is lp for l in ctx.enclosing(fn, c, (ast.For,))) and n.kind == "test" and _is_exit_test(ctx, fn, n):
                 seen, stack = set(), [d]
                 bad = False
                 while stack:
@@ -321,16 +378,16 @@ def c18_5(ctx, r):
     r.check(bool(ok_succ), "after ret == 0 the loop is left without sleeping or re-executing", key_of(fn, "exit on success"), fn.loc(lp), "a successful execution is followed by a sleep / another execution", "stopping at the first success")
     # every path from exec back to the loop head passes the sleep (no busy retry) - informational
     # listed permanent error forces the last iteration
-    sets_last = [n for n in cfg.nodes if n.kind == "stmt" and isinstance(n.ast, ast.Assign) and ctx.src(n.ast.targets[0]) == ctx.src(lp.target) and "max_tries - 1" in ctx.src(n.ast.value)]
+    sets_last = [n for n in cfg.nodes if n.kind == "stmt" and isinstance(n.ast, ast.Assign) and ctx.src(n.ast.targets[0]) == IV and ctx.src(n.ast.value).replace(" ", "") == f"{MT}-1"]
     ok_err = False
     for n in sets_last:
         forms = guard_forms(ctx, fn, n)
         ok_err = any(p and "_should_exit_early" in f for f, p in forms)
     r.check(ok_err, "a listed permanent error jumps to the last iteration", key_of(fn, "early exit on listed error"), fn.loc(lp), "a listed permanent error no longer stops the retries", "or at a listed permanent error")
-    last = any(p and f.replace(" ", "") in (f"{ctx.src(lp.target)}==max_tries-1", f"{ctx.src(lp.target)}==(max_tries-1)") for b in brks for f, p in guard_forms(ctx, fn, b, ALL_KINDS, kill=False)) or True
+    last = any(p and f.replace(" ", "") in (f"{IV}=={MT}-1", f"{IV}==({MT}-1)") for b in brks for f, p in guard_forms(ctx, fn, b, ALL_KINDS, kill=False)) or True
     # the exit test is `ret == 0 or i == max_tries - 1`
     tests = [n for n in iter_own(lp) if isinstance(n, ast.If) and any(isinstance(x, ast.Break) for x in n.body)]
-    r.check(len(tests) == 1 and ctx.src(tests[0].test).replace(" ", "") == f"ret==0or{ctx.src(lp.target)}==max_tries-1", "exit test = `ret == 0 or i == max_tries - 1`", key_of(fn, "exit test"), fn.loc(lp), f"exit test is `{ctx.src(tests[0].test) if tests else None}`")
+    r.check(len(tests) == 1 and ctx.src(tests[0].test).replace(" ", "") == f"{RET}==0or{IV}=={MT}-1", "exit test = `ret == 0 or i == max_tries - 1`", key_of(fn, "exit test"), fn.loc(lp), f"exit test is `{ctx.src(tests[0].test) if tests else None}`")
     # the output handed back is that of the last execution
     r.check(dominated_by(ctx, fn, brks[0], [n for n in cfg.nodes for c in cfg.calls_at(n) if ctx.src(c.func) == "output.update"] + [x for x in cfg.nodes if x.kind == "test" and ctx.src(x.ast) == "isinstance(output, dict)"]), "the caller's output dict is filled before leaving", key_of(fn, "output"), fn.loc(), "output is not updated before the break")
     # contradiction rule: the dict whose stderr is examined is the dict the guard tested (the per-attempt one)
@@ -344,7 +401,9 @@ def c18_5(ctx, r):
                     f"`{ctx.src(s2.node)}` examines `{var}` but is guarded by {sorted(f for f, p in forms if p and f in fn.params + ['_output', 'output'])}: with a fresh (empty) caller dict the listed-error test is never reached and a permanent error is retried num_retries times",
                     "stopping at the first success or at a listed permanent error", guards=sorted(("" if p else "not ") + f for f, p in forms))
     sc = ctx.fn("run_command._should_exit_early", "C18.5")
-    ok = any(isinstance(n, ast.If) and ctx.src(n.test).replace(" ", "") == "errinstd_err" for n in iter_own(sc.node))
+    lps0 = [n for n in sc.node.body if isinstance(n, ast.For)]
+    ev = ctx.src(lps0[0].target) if lps0 else None
+    ok = any(isinstance(n, ast.If) and ctx.src(n.test).replace(" ", "") == f"{ev}in{sc.params[0]}" for n in iter_own(sc.node))
     r.check(ok, "permanent error = a listed string occurs in stderr", key_of(sc, "match"), sc.loc(), "_should_exit_early no longer tests `err in std_err`")
     lps = [n for n in sc.node.body if isinstance(n, ast.For)]
     if len(lps) != 1 or not isinstance(lps[0].iter, ast.Name) or lps[0].iter.id not in sc.params:
@@ -369,3 +428,34 @@ def c18_5(ctx, r):
 def _is_exit_test(ctx, fn, node):
     st = node.stmt
     return isinstance(st, ast.If) and any(isinstance(x, ast.Break) for x in st.body)
+
+
+@rule(P, "C18.6", "T1", "SLURM option models change a configured value only when it is unset (what is configured is what the script carries)", min_obligations=1)
+def c18_6(ctx, r):
+    """pydantic root validators of the scheduler option models may fill defaults: a store `values[K] = <constant>` must be
+    under `values[K] is None` - otherwise a configured option is silently replaced before the script is written."""
+    n = 0
+    for cname in ("SlurmConfig", "FakeHpcConfig", "LocalHpcConfig", "HpcConfig"):
+        c = ctx.ix.try_class(cname) if hasattr(ctx.ix, "try_class") else None
+        if c is None:
+            try:
+                c = ctx.cls(cname)
+            except AnalysisError:
+                continue
+        for m in c.methods.values():
+            pv = [p for p in m.params if p not in ("cls", "self")]
+            if not pv:
+                continue
+            cfg = ctx.cfg(m)
+            for node in cfg.nodes:
+                a = node.ast
+                if node.kind == "stmt" and isinstance(a, ast.Assign) and isinstance(a.targets[0], ast.Subscript) and isinstance(a.targets[0].value, ast.Name) and a.targets[0].value.id == pv[0] and isinstance(a.targets[0].slice, ast.Constant) and isinstance(a.value, ast.Constant):
+                    n += 1
+                    key = a.targets[0].slice.value
+                    forms = guard_forms(ctx, m, node, ALL_KINDS, kill=False)
+                    ok = any(p and f.replace('"', "'") == f"{pv[0]}['{key}'] is None" for f, p in forms)
+                    r.check(ok, f"{m.short}: `{key}` is defaulted only when unset", key_of(m, f"overwrites configured {key}"), m.loc(a),
+                            f"`{ctx.src(a)}` is reachable without `{pv[0]}['{key}'] is None`: a configured `{key}` is replaced by {ctx.src(a.value)} and the submission script carries --{key}={ctx.src(a.value)} instead of the configured value",
+                            "contains exactly the configured ... every optional parameter that is set")
+    if n < 1:
+        raise AnalysisError("C18.6", "no defaulting store found in the scheduler option models (SlurmConfig.handle_nodes_and_tasks expected)")
